@@ -41,13 +41,17 @@ type c06Holder struct {
 	Kind partitions.Kind
 }
 
-func c06Get(ctx *runCtx, r int, rr bool, share, of int) {
-	spec := fmt.Sprintf("get R=%d read-repair=%v", r, rr)
+func c06Get(ctx *runCtx, r int, rr bool, share, of int, chain int) {
+	spec := fmt.Sprintf("get R=%d read-repair=%v owners-chain=%d", r, rr, chain)
+	parts := uint64(13)
+	if chain == 3 {
+		parts = 31
+	}
 	n0 := r
 	if n0 < 2 {
 		n0 = 2
 	}
-	c, err := cluster.Start(cluster.Config{Replicas: r, ReadRepair: rr, Partitions: 13, TableSize: 1 << 20}, n0)
+	c, err := cluster.Start(cluster.Config{Replicas: r, ReadRepair: rr, Partitions: parts, TableSize: 1 << 20}, n0)
 	if err != nil {
 		ctx.rep.Inconclusive(spec + ": cluster start: " + err.Error())
 		return
@@ -57,23 +61,29 @@ func c06Get(ctx *runCtx, r int, rr bool, share, of int) {
 	dmap := "c06"
 	// filler data in every partition so that previous owners keep their place in the owners list
 	fill, _ := c.Members[0].Emb.NewDMap(dmap)
-	for i := 0; i < 200; i++ {
+	for i := 0; i < 400; i++ {
 		_ = fill.Put(bg, fmt.Sprintf("filler-%d", i), "f")
 	}
-	if _, err := c.AddMember(); err != nil {
-		ctx.rep.Inconclusive(spec + ": join: " + err.Error())
-		return
-	}
-	if err := c.WaitStable(30 * time.Second); err != nil {
-		ctx.rep.Inconclusive(spec + ": " + err.Error())
-		return
+	for j := 1; j < chain; j++ {
+		if _, err := c.AddMember(); err != nil {
+			ctx.rep.Inconclusive(spec + ": join: " + err.Error())
+			return
+		}
+		if err := c.WaitStable(30 * time.Second); err != nil {
+			ctx.rep.Inconclusive(spec + ": " + err.Error())
+			return
+		}
+		// the newest owner must hold data too, otherwise the coordinator prunes it when the next member joins
+		for i := 0; i < 400; i++ {
+			_ = fill.Put(bg, fmt.Sprintf("filler-%d-%d", j, i), "f")
+		}
 	}
 	// a partition that is fragmented: owners = [previous, new]
 	var part uint64
 	found := false
-	for p := uint64(0); p < 13; p++ {
+	for p := uint64(0); p < parts; p++ {
 		owners := c.Members[0].V.Primary.PartitionByID(p).Owners()
-		if len(owners) == 2 && len(c.Members[0].V.Backup.PartitionByID(p).Owners()) >= r-1 {
+		if len(owners) == chain && len(c.Members[0].V.Backup.PartitionByID(p).Owners()) >= r-1 {
 			part, found = p, true
 			break
 		}
@@ -83,9 +93,13 @@ func c06Get(ctx *runCtx, r int, rr bool, share, of int) {
 		return
 	}
 	owners := c.Members[0].V.Primary.PartitionByID(part).Owners()
-	holders := []c06Holder{
-		{"owner", c.ByID(owners[1].ID), partitions.PRIMARY},
-		{"previous", c.ByID(owners[0].ID), partitions.PRIMARY},
+	holders := []c06Holder{{"owner", c.ByID(owners[len(owners)-1].ID), partitions.PRIMARY}}
+	for i := len(owners) - 2; i >= 0; i-- {
+		role := "previous"
+		if i < len(owners)-2 {
+			role = "previous-older"
+		}
+		holders = append(holders, c06Holder{role, c.ByID(owners[i].ID), partitions.PRIMARY})
 	}
 	bos := c.Members[0].V.Backup.PartitionByID(part).Owners()
 	// current backup owners are the last R-1 entries
@@ -162,7 +176,7 @@ func c06Get(ctx *runCtx, r int, rr bool, share, of int) {
 			}
 		}
 		if len(distinctRanks) >= 2 {
-			ctx.rep.Distinct(fmt.Sprintf("get|R=%d|rr=%v|%s", r, rr, ls))
+			ctx.rep.Distinct(fmt.Sprintf("get|R=%d|rr=%v|chain=%d|%s", r, rr, chain, ls))
 		}
 		if code%37 == 5 {
 			ctx.rep.Sample(map[string]interface{}{"kind": "get", "config": spec, "layout": ls, "via": via, "returned": string(g.Value), "error": paths.Class(err)})
@@ -196,7 +210,7 @@ func c06Get(ctx *runCtx, r int, rr bool, share, of int) {
 			// one read must have repaired the owner's own copy and every stale backup copy
 			wantTS := c06Base + int64(maxRank)*1000
 			for i, h := range holders {
-				if h.Role == "previous" {
+				if strings.HasPrefix(h.Role, "previous") {
 					continue
 				}
 				if h.Kind == partitions.BACKUP && (ranks[i] == 0 || ranks[i] == maxRank) {
@@ -295,7 +309,12 @@ func c06Merge(ctx *runCtx, sets int, seed int64) {
 					continue
 				}
 				ts := int64(1 + rng.Intn(6))
-				ents = append(ents, c06Ent{Key: key, Val: fmt.Sprintf("s%d-%s-ts%d", i, key, ts), TS: c06Base + ts})
+				val := fmt.Sprintf("s%d-%s-ts%d", i, key, ts)
+				if s%3 == 2 {
+					// only two different values per key: the same bytes come back with a newer timestamp
+					val = fmt.Sprintf("%s-%s", key, []string{"on", "off"}[int(ts)%2])
+				}
+				ents = append(ents, c06Ent{Key: key, Val: val, TS: c06Base + ts})
 			}
 			sources = append(sources, ents)
 		}
@@ -451,8 +470,9 @@ func c06Child(ctx *runCtx, spec string) {
 		return
 	}
 	var r, rr, share, of int
-	fmt.Sscanf(spec, "get:%d:%d:%d/%d", &r, &rr, &share, &of)
-	c06Get(ctx, r, rr == 1, share, of)
+	chain := 2
+	fmt.Sscanf(spec, "get:%d:%d:%d/%d:%d", &r, &rr, &share, &of, &chain)
+	c06Get(ctx, r, rr == 1, share, of, chain)
 }
 
 func c06Run(ctx *runCtx) int {
@@ -469,7 +489,11 @@ func c06Run(ctx *runCtx) int {
 			if ctx.tier == "quick" && r == 3 && rr == 0 {
 				continue
 			}
-			batches = append(batches, batch{Spec: fmt.Sprintf("get:%d:%d:%d/%d", r, rr, share, of), Timeout: 10 * time.Minute})
+			batches = append(batches, batch{Spec: fmt.Sprintf("get:%d:%d:%d/%d:2", r, rr, share, of), Timeout: 10 * time.Minute})
+			if r <= 2 && (ctx.tier == "thorough" || rr == 1) {
+				// owners chain of three: two joins whose hand-overs have not finished
+				batches = append(batches, batch{Spec: fmt.Sprintf("get:%d:%d:%d/%d:3", r, rr, share, of*2), Timeout: 10 * time.Minute})
+			}
 		}
 	}
 	sets := 12
